@@ -104,6 +104,13 @@ CHECKS.update({
    note="Metamorphic oracle, no expected values. Namings that would make the renaming capture a same-stage reference are excluded (not alpha-variants).",
    design="4/C10"),
 })
+CHECKS.update({
+ "C15": dict(
+   technique="explicit-state exploration of compilation histories in one process (all sequences of <= d compilations over a program set built to exercise every name/hash-keyed table), each observation compared with fresh-process observations (shape S)",
+   text="Every history of up to d compilations over ten programs is executed in a worker process; the last compilation's bytecode listing, WASM bytes, state layout and VM/WASM outputs must equal those of an immediate recompilation and those obtained in fresh processes, whatever was compiled before.",
+   note="The hash-seed dimension (HashMap iteration order across processes) cannot be enumerated without replacing RandomState throughout the compiler; it is covered only by R fresh processes per program (sampling, labelled as such in the evidence). The MIR text is not compared (it embeds interner ids).",
+   design="4/C15"),
+})
 NOT_YET = {}
 
 def main():
